@@ -14,6 +14,7 @@ import (
 )
 
 func reset() {
+	curMaxLen = 128
 	size.Formatter = size.DefaultFormatter
 	size.Parser = size.DefaultParser[[]byte]
 	size.DisableMarshalTextUnit, size.DisableMarshalJSONStringForm, size.DisableMarshalJSONObjectForm = false, false, false
@@ -28,12 +29,20 @@ type arg struct {
 	Rule    int     `json:"rule"`
 	Max     int     `json:"max_object_keys"`
 	Prev    *mc.Bin `json:"previous_call,omitempty"` // history of depth 2: parsed first (same rule), on the buffer that is then reused
+	MaxLen  *int    `json:"max_input_length,omitempty"` // nil = default 128
 	Via     int     `json:"previous_via,omitempty"`  // the single previous call: 0 DefaultParser[[]byte] on the shared buffer, 1 DefaultParser[string], 2 UnmarshalJSON on the shared buffer
 }
+
+var curMaxLen = 128
 
 func setup(a arg) {
 	size.MaxObjectKeys = a.Max
 	size.DefaultRule = size.Rule(a.Rule)
+	curMaxLen = 128
+	if a.MaxLen != nil {
+		curMaxLen = *a.MaxLen
+	}
+	size.MaxInputLength = curMaxLen
 }
 
 // ---------------------------------------------------------------- AST
@@ -265,7 +274,7 @@ var registry = map[string]docAST{} // doc text -> AST (filled by the generators,
 func expectDoc(doc string, rule, max int) expectation { return expectDocAST(doc, nil, rule, max) }
 
 func expectDocAST(doc string, given *docAST, rule, max int) expectation {
-	if len(doc) > 128 {
+	if curMaxLen != 0 && len(doc) > curMaxLen {
 		return rejectAny("longer than MaxInputLength")
 	}
 	if rule&6 == 0 {
@@ -778,6 +787,21 @@ func main() {
 			}
 			reset()
 		})
+		for _, ml := range []int{0, 50, 1000} {
+			ml := ml
+			r.Phase(fmt.Sprintf("MaxInputLength=%d, MaxObjectKeys=0: objects with 0..60 unknown members before/after value and unit, long numbers and strings", ml), "complete grid", func() {
+				setup(arg{Rule: 6, Max: 0, MaxLen: &ml})
+				r.Parallel(61, 1, func(w *mc.W, k int64) {
+					pad := strings.Repeat(`"x":[1],`, int(k))
+					for _, d := range []string{`{` + pad + `"value":1,"unit":"KiB"}`, `{"value":1,` + pad + `"unit":"KiB"}`, `{"unit":"KiB","value":2` + strings.Repeat(`,"y":{"a":null}`, int(k)) + `}`,
+						strings.Repeat("0", 0) + "1" + strings.Repeat("0", int(k)%20), `"` + strings.Repeat(" ", int(k)*3) + `7 B"`, strings.Repeat(" ", int(k)*5) + `{"value":3,"unit":"B"}`} {
+						w.Point()
+						p.Do(w, arg{Doc: mc.Bin(d), Rule: 6, Max: 0, MaxLen: &ml})
+					}
+				})
+				reset()
+			})
+		}
 		r.Sample("document", arg{Doc: `{"x":1,"value":1,"unit":"B"}`, Rule: 6, Max: 2})
 		r.Sample("truncated", arg{Doc: `{"value":1,"unit":"B"`, Rule: 6, Max: 16})
 		r.Sample("trailing", arg{Doc: `5 x`, Rule: 2, Max: 16})
